@@ -1,12 +1,13 @@
 import Jose.Driver.B64
 import Jose.Driver.IO
+import Jose.Driver.Jwk
 /-
   Line-protocol driver: answers each `<op> <json>` line from the model.
   (`lake exe josemodel < ops`); see harness/hx.c for the real side.
 -/
 open Jose Jose.Driver
 
-def allOps : List (String × (Json → Json)) := b64Ops ++ ioOps
+def allOps : List (String × (Json → Json)) := b64Ops ++ ioOps ++ jwkOps
 
 def handle (line : String) : String :=
   let line := line.trimAscii.toString
